@@ -277,7 +277,8 @@ class MultiNestOptimizer(Optimizer):
             modes_weights.append(chains_weights[0])
             modes = [0]
 
-        modes_weights = np.asarray(modes_weights)
+        # modes generally hold different numbers of samples, so the per-mode
+        # weights stay a list (np.asarray of ragged input raises)
         for nmode in range(len(modes)):
             self.debug('Nmode: {}'.format(nmode))
 
